@@ -117,6 +117,7 @@ _LEAK = []
 _LEAK_WINDOW = [1.5]      # seconds a worker process may take to disappear after DoitMain.run returned
 _orig_reap = runlib._reap_children
 _orig_build = runlib.build_namespace
+_orig_expand = runlib.expand
 
 
 def _reap_counting():
@@ -133,6 +134,87 @@ def _reap_counting():
     _orig_reap()
 
 
+def _build_with_delayed(case, rec):
+    """case['delayed'] = [{'creator': c, 'executed': name|None, 'tasks': [names]}]: the listed tasks are not yielded by
+    the common task-creator but by `task_<c>`, decorated with create_after(executed=..., creates=<the same names>)"""
+    ns = _build_with_raise(case, rec)
+    delayed = case.get('delayed')
+    if not delayed:
+        return ns
+    from doit import create_after
+    gen = ns['task_gen']
+    withheld = set(n for d in delayed for n in d['tasks'])
+
+    def task_gen():
+        for d in gen():
+            if not (d.get('basename') in withheld and d.get('name') is None):
+                yield d
+    ns['task_gen'] = task_gen
+    for spec in delayed:
+        def creator(names=tuple(spec['tasks'])):
+            for d in gen():
+                if d.get('basename') in names and d.get('name') is None:
+                    yield d
+        creator.__name__ = 'task_' + spec['creator']
+        ns['task_' + spec['creator']] = create_after(executed=spec['executed'], creates=list(spec['tasks']))(creator)
+    return ns
+
+
+def has_delayed(case):
+    return bool(case.get('delayed'))
+
+
+def delayed_graph(case):
+    """(unknown trigger names, edges) of a case with delayed creators: a task created by `c` stands in the task table from
+    the start as a placeholder that depends on `executed` of c; after creation it has its own dependencies"""
+    names = set(t['name'] for t in case['tasks'])
+    idx = runlib.task_index(case)
+    m = case['model']
+    edges = {i: set(m['taskDep'][i]) | set(m['setup'][i]) | set(m['calcDep'][i]) for i in range(m['n'])}
+    unknown = []
+    for spec in case['delayed']:
+        e = spec['executed']
+        if e is None:
+            continue
+        if e not in names:
+            unknown.append(e)
+            continue
+        for n in spec['tasks']:
+            edges[idx[n]].add(idx[e])
+    return unknown, {k: sorted(v) for k, v in edges.items()}
+
+
+def py_monitor_delayed(case, obs):
+    """the four clauses for a run with delayed task-creators (whole task table selected, every task succeeds): the
+    closure graph is the static one plus placeholder -> trigger edges"""
+    f = obs_flags(obs)
+    unknown, edges = delayed_graph(case)
+    cyc = [] if unknown else cycle_tasks(edges)
+    started = set(e[1] for e in obs['trace'] if e[0] in ('start', 'execute'))
+    res = {'C09_terminates': not f['hung'],
+           'C09_cycle_diagnosed': (not cyc) or (f['exit'] == 3 and f['errCyclic']),
+           'C09_no_cycle_task_run': not any(t in started for t in cyc),
+           'C09_no_false_cycle': bool(cyc) or not (f['errCyclic'] or f['errWait'] or f['hung'])}
+    return res, {'cycle': cyc, 'unknown_trigger': unknown, 'flags': f, 'family': 'delayed-creators'}
+
+
+def delayed_oracle(case, obs):
+    unknown, edges = delayed_graph(case)
+    if unknown:
+        if obs['exit'] != 3 or obs['err'] not in ('invalid', 'not-found'):
+            return 'create_after(executed=%r) names no task: expected an error exit with a diagnostic, got exit=%s err=%s' \
+                % (unknown[0], obs['exit'], obs['err'])
+        return None
+    if cycle_tasks(edges):
+        return None          # the monitor decides
+    # (string ids: the empty group task of a creator that yields nothing, not part of the case)
+    done = sorted(e[1] for e in obs['trace'] if e[0] == 'success' and isinstance(e[1], int))
+    if obs['exit'] != 0 or done != sorted(edges):
+        return 'no cycle among tasks and triggers: expected exit 0 and every task executed once, got exit=%s err=%s, %d of %d ' \
+               'success reports' % (obs['exit'], obs['err'], len(done), len(edges))
+    return None
+
+
 def _build_with_raise(case, rec):
     """status 'raise': the task's `uptodate` callable raises when select_task asks for its status"""
     c2 = dict(case)
@@ -141,7 +223,9 @@ def _build_with_raise(case, rec):
     raising = set(t['name'] for t in case['tasks'] if t['status'] == 'raise')
     big = set(t['name'] for t in case['tasks'] if t.get('big') and t['kind'] == 'task')
     exc = dict((t['name'], t['exc_args']) for t in case['tasks'] if t.get('exc_args') and t['kind'] == 'task')
-    if not raising and not big and not exc:
+    odd = dict((t['name'], (t.get('calc_extra'), t.get('ret_kind'))) for t in case['tasks']
+               if (t.get('calc_extra') or t.get('ret_kind')) and t['kind'] == 'task')
+    if not raising and not big and not exc and not odd:
         return ns
     gen = ns['task_gen']
 
@@ -172,8 +256,27 @@ def _build_with_raise(case, rec):
                 raise ToolFailed(str(e), 4, ('tool', 'exited'))
         return act
 
+    def odd_result(action, extra, kind):
+        # what the action returns: extra keys merged into the dict (`uptodate`, unknown keys), or no dict at all
+        import functools
+
+        @functools.wraps(action)
+        def act(*a, **kw):
+            val = action(*a, **kw)
+            if kind == 'str':
+                return 'just text' if isinstance(val, dict) else val
+            if kind == 'none':
+                return None if isinstance(val, dict) else val
+            if isinstance(val, dict) and extra:
+                val = dict(val)
+                val.update(extra)
+            return val
+        return act
+
     def task_gen():
         for d in gen():
+            if d.get('basename') in odd and d.get('name') is None and d.get('actions'):
+                d = dict(d, actions=[odd_result(d['actions'][0], *odd[d['basename']])] + list(d['actions'][1:]))
             if d.get('basename') in exc and d.get('name') is None and d.get('actions'):
                 d = dict(d, actions=[exotic(d['actions'][0], exc[d['basename']])] + list(d['actions'][1:]))
             if d.get('basename') in raising and d.get('name') is None:
@@ -226,7 +329,7 @@ def run_once(case, factor=1.0):
     A.Writer.write = write
     _LEAK_WINDOW[0] = 1.5 * max(1.0, factor)
     runlib._reap_children = _reap_counting
-    runlib.build_namespace = _build_with_raise
+    runlib.build_namespace = _build_with_delayed
     try:
         obs = runlib.run_impl(case, watchdog=WATCHDOG[case['runner']] * factor, keep_raw=False)
     finally:
@@ -241,6 +344,41 @@ def run_once(case, factor=1.0):
         obs['diag_in_captured_stream'] = True
         obs['stderr'] = (obs.get('stderr') or '') + seen[0]
     return obs
+
+
+def is_pattern(name):
+    return '*' in name
+
+
+def c09_expand(case):
+    """runlib.expand for the extra input shapes of this module:
+    * status 'raise' (uptodate callable raises): the model is not asked, expansion as for 'run';
+    * a wildcard entry in task_dep (`'*' in name`): Task._expand_task_dep moves it to wild_dep and TaskControl.__init__
+      appends, after the explicit entries, every task name matching it (fnmatch, definition order, the task itself
+      included, no de-duplication) -- the model gets the expanded list;
+    * ret_kind 'str' / 'none' (the action returns a string / None instead of a dict): task.values stays empty, a calc_dep
+      on it delivers nothing;  calc_extra (keys `uptodate`, unknown keys merged into the returned dict): ignored by
+      Task.update_deps except `uptodate`, which the generators only deliver where it cannot change the status."""
+    import fnmatch
+    names = [t['name'] for t in case['tasks']]
+    tasks = []
+    for t in case['tasks']:
+        t2 = dict(t)
+        if t2['status'] == 'raise':
+            t2['status'] = 'run'
+        if any(is_pattern(x) for x in t2['task_dep']):
+            lit = [x for x in t2['task_dep'] if not is_pattern(x)]
+            for pat in [x for x in t2['task_dep'] if is_pattern(x)]:
+                lit += [n for n in names if fnmatch.fnmatch(n, pat)]
+            t2['task_dep'] = lit
+        if t2.get('ret_kind'):
+            t2['calc_res'] = None
+        tasks.append(t2)
+    return _orig_expand(dict(case, tasks=tasks))
+
+
+def has_wild(case):
+    return any(is_pattern(x) for t in case['tasks'] for x in t['task_dep'])
 
 
 def has_raise(case):
@@ -279,13 +417,16 @@ def _finished(trace):
 
 def _calcs_at(model, fin, t):
     cs = list(model['calcDep'][t])
-    for _ in range(model['n']):
+    changed = bool(cs)
+    while changed:
+        changed = False
         for c in list(cs):
             cr = model['calcRes'][c]
             if c in fin and cr:
                 for x in cr['calc']:
                     if x not in cs:
                         cs.append(x)
+                        changed = True
     return cs
 
 
@@ -316,7 +457,7 @@ def edges_at(model, fin, t):
 
 
 def closure_graph(case, trace):
-    model = case.get('model') or runlib.expand(case)
+    model = case.get('model') or c09_expand(case)
     fin = _finished(trace)
     clo, todo = [], [s for s in model['sel'] if 0 <= s < model['n']]
     edges = {}
@@ -331,17 +472,50 @@ def closure_graph(case, trace):
 
 
 def cycle_tasks(edges):
-    out = []
-    for t in edges:
-        seen, todo = set(), list(edges[t])
-        while todo:
-            x = todo.pop()
-            if x in seen:
+    """tasks on a cycle: members of a strongly connected component with more than one task, or with a self-loop
+    (iterative Tarjan: the graphs of the scale tier have thousands of nodes)"""
+    index, low, on, stack, out = {}, {}, set(), [], []
+    counter = [0]
+    for root in edges:
+        if root in index:
+            continue
+        work = [(root, iter(edges.get(root, [])))]
+        index[root] = low[root] = counter[0]
+        counter[0] += 1
+        stack.append(root)
+        on.add(root)
+        while work:
+            v, it = work[-1]
+            advanced = False
+            for w in it:
+                if w not in edges:
+                    continue
+                if w not in index:
+                    index[w] = low[w] = counter[0]
+                    counter[0] += 1
+                    stack.append(w)
+                    on.add(w)
+                    work.append((w, iter(edges.get(w, []))))
+                    advanced = True
+                    break
+                if w in on:
+                    low[v] = min(low[v], index[w])
+            if advanced:
                 continue
-            seen.add(x)
-            todo += edges.get(x, [])
-        if t in seen:
-            out.append(t)
+            work.pop()
+            if work:
+                u = work[-1][0]
+                low[u] = min(low[u], low[v])
+            if low[v] == index[v]:
+                comp = []
+                while True:
+                    w = stack.pop()
+                    on.discard(w)
+                    comp.append(w)
+                    if w == v:
+                        break
+                if len(comp) > 1 or v in edges.get(v, []):
+                    out += comp
     return sorted(out)
 
 
@@ -349,12 +523,12 @@ def obs_flags(obs):
     err = obs['err']
     return {'exit': obs['exit'] if isinstance(obs['exit'], int) and obs['exit'] >= 0 else 99,
             'errCyclic': err == 'cyclic',
-            'errWait': err in ('crash:AttributeError', 'crash:AssertionError'),
+            'errWait': err in ('crash:AttributeError', 'crash:AssertionError', 'crash:RecursionError'),
             'hung': err == 'deadlock' or bool(obs.get('leak'))}
 
 
 def py_monitor(case, obs):
-    model = case.get('model') or runlib.expand(case)
+    model = case.get('model') or c09_expand(case)
     tr = obs['trace']
     f = obs_flags(obs)
     cyc = cycle_tasks(closure_graph(case, tr))
@@ -581,8 +755,37 @@ def rename_metachars(rng, case):
     return case
 
 
+def gen_delayed(rng, runner, seed):
+    """4-7 succeeding tasks, a random static DAG over task_dep / setup / calc_dep, 1-3 delayed creators owning 1-2 tasks
+    each, `executed` = nothing / an unknown name / any task (its own, another creator's, a static one)"""
+    n = rng.randint(4, 7)
+    ts = [_task('d%d' % i) for i in range(n)]
+    for i in range(1, n):
+        for _ in range(rng.choice([0, 0, 1, 1, 2])):
+            add_edge(ts, 'd%d' % i, 'd%d' % rng.randrange(i), rng.choice(['task_dep', 'task_dep', 'setup', 'calc_dep']))
+    names = [t['name'] for t in ts]
+    pool = names[:]
+    rng.shuffle(pool)
+    dl = []
+    for j in range(rng.randint(1, 3)):
+        own = [pool.pop() for _ in range(min(len(pool), rng.choice([1, 1, 2])))]
+        if not own:
+            break
+        r = rng.random()
+        ex = None if r < 0.1 else 'nosuch' if r < 0.2 else rng.choice(names)
+        dl.append({'creator': 'c%d' % j, 'executed': ex, 'tasks': own})
+    k = 0 if runner == 'serial' else rng.choice([2, 3])
+    c = base_case(ts, None, runner, k, policy={'kind': 'seeded', 'seed': rng.randrange(1 << 30)})
+    c['delayed'] = dl
+    c['family'] = 'sampled-delayed'
+    c['seed'] = seed
+    return c
+
+
 def gen_sampled(seed, runner):
     rng = random.Random(seed)
+    if runner in ('serial', 'thread') and rng.random() < 0.1:
+        return gen_delayed(rng, runner, seed)
     knobs = dict(n_min=3, n_max=9, runner=runner, p_dual=0.2, p_failed=0.08, p_exc=0.04, p_error=0.04, p_utd=0.15,
                  p_ignored=0.05, p_dup_sel=0.0, p_group=0.2)
     if runner == 'process':
@@ -607,9 +810,136 @@ def gen_sampled(seed, runner):
                 t['exc_args'] = rng.choice(['unpicklable', 'unpicklable', 'picklable'])
     if rng.random() < 0.25:
         rename_metachars(rng, c)
+    if rng.random() < 0.2:
+        # calc results with more than the three dependency keys (ignored by Task.update_deps / cannot change a status)
+        for t in c['tasks']:
+            if t['kind'] == 'task' and t['calc_res'] is not None and rng.random() < 0.7:
+                t['calc_extra'] = rng.choice([{'junk': 1}, {'uptodate': [None]}, {'setup': ['nobody'], 'junk': [1, 2]},
+                                              {'uptodate': [None], 'targets': ['x']}])
+    if rng.random() < 0.15:
+        # a wildcard task_dep (prefix of an existing name + '*'): may match the task itself or close a cycle
+        cands = [t for t in c['tasks'] if t['kind'] == 'task' and not t['result_dep']]
+        if cands:
+            t = rng.choice(cands)
+            other = rng.choice(c['tasks'])['name']
+            pat = other[:rng.randint(1, len(other))] + '*'
+            if '*' not in pat[:-1] and '[' not in pat and '?' not in pat:
+                t['task_dep'].append(pat)
     c['family'] = 'sampled'
     c['seed'] = seed
     return c
+
+
+def _chain(n, kind, prefix='t'):
+    ts = [_task('%s%d' % (prefix, i)) for i in range(n)]
+    for i in range(1, n):
+        add_edge(ts, ts[i]['name'], ts[i - 1]['name'], kind)
+    return ts
+
+
+def scale_cases(tier, rng):
+    """graphs two orders of magnitude larger than everywhere else: deep chains per edge kind (the dispatcher steps one
+    generator per node: no recursion may build up), wide fan-in / fan-out under 2..8 workers, long cycles (50+) through
+    task_dep / setup / calc_dep / file_dep / group edges, also at the end of a long chain or under a common parent, and
+    layered random DAGs.  Too large for the Lean driver (acceptor and monitor are polynomial of degree 3-4): these cases
+    run under the Python transcription of the monitor plus an outcome oracle, and are counted
+    (`scale:python-monitor-only`)."""
+    quick = tier == 'quick'
+    out = []
+
+    def add(ts, sel, runner, k, what, cont=False):
+        c = base_case(ts, sel, runner, k, cont=cont, policy={'kind': 'seeded', 'seed': len(out) + 1})
+        c['family'] = 'scale'
+        c['scale'] = what
+        out.append(c)
+    deep = 250 if quick else 2000
+    for kind in ('task_dep', 'setup', 'calc_dep', 'file'):
+        add(_chain(deep, kind), ['t%d' % (deep - 1)], 'serial', 0, 'chain:%s' % kind)
+        add(_chain(deep, kind), None, 'thread', {'task_dep': 2, 'setup': 3, 'calc_dep': 8, 'file': 4}[kind], 'chain:%s' % kind)
+    add(_chain(60 if quick else 200, 'task_dep'), None, 'process', 2, 'chain:task_dep')
+    # every node also names the root of the chain: _gen_node walks `ancestors` for an existing node at every depth
+    # (deeper than the interpreter's recursion limit in every tier)
+    vdeep = 1500 if quick else 3000
+    ts = _chain(vdeep, 'task_dep')
+    for i in range(2, vdeep):
+        ts[i]['task_dep'].append('t0')
+    add(ts, ['t%d' % (vdeep - 1)], 'serial', 0, 'chain+shared-root')
+    add(_chain(vdeep, 'setup'), ['t%d' % (vdeep - 1)], 'thread', 2, 'chain:setup')
+    wide = 300 if quick else 1500
+    for runner, k in (('serial', 0), ('thread', 2), ('thread', 8), ('process', 4)):
+        w = wide if runner != 'process' else 40
+        ts = [_task('l%d' % i) for i in range(w)] + [_task('top')]
+        ts[-1]['task_dep'] = ['l%d' % i for i in range(w)]
+        add(ts, ['top'], runner, k, 'fan-in')
+        ts = [_task('base')] + [_task('u%d' % i) for i in range(w)]
+        for t in ts[1:]:
+            t['task_dep'] = ['base']
+        add(ts, None, runner, k, 'fan-out')
+        ts = [_task('l%d' % i) for i in range(w)] + [_task('top')]
+        ts[-1]['setup'] = ['l%d' % i for i in range(w)]
+        add(ts, ['top'], runner, k, 'fan-in:setup')
+    # long cycles
+    for length in ((50, 120) if quick else (50, 400, 1500)):
+        for kinds in (('task_dep',), ('setup',), ('calc_dep',), ('task_dep', 'setup', 'calc_dep', 'file')):
+            ts = [_task('r%d' % i) for i in range(length)]
+            for i in range(length):
+                add_edge(ts, 'r%d' % i, 'r%d' % ((i + 1) % length), kinds[i % len(kinds)])
+            for runner, k in (('serial', 0), ('thread', 4)):
+                add(ts, ['r0'], runner, k, 'cycle:%s:%d' % ('+'.join(kinds) if len(kinds) == 1 else 'mixed', length))
+        # the ring sits at the end of a chain / under a common parent that names two members
+        ts = _chain(100, 'task_dep') + [_task('r%d' % i) for i in range(length)]
+        for i in range(length):
+            add_edge(ts, 'r%d' % i, 'r%d' % ((i + 1) % length), 'task_dep')
+        ts[0]['task_dep'] = ['r0']
+        add(ts, ['t99'], 'thread', 3, 'chain-then-cycle:%d' % length)
+        ts = [_task('p')] + [_task('r%d' % i) for i in range(length)] + [_task('free%d' % i) for i in range(20)]
+        for i in range(length):
+            add_edge(ts, 'r%d' % i, 'r%d' % ((i + 1) % length), 'task_dep')
+        ts[0]['task_dep'] = ['free%d' % i for i in range(20)] + ['r%d' % (length // 2), 'r0']
+        add(ts, ['p'], 'thread', 4, 'common-parent-cycle:%d' % length)
+        add(ts, ['p'], 'serial', 0, 'common-parent-cycle:%d' % length)
+    # a cycle through group edges: g -> its sub-tasks -> x -> g
+    for nsub in (3, 60):
+        ts = [runlib._new_task('g', 'group')] + [runlib._new_task('g:s%d' % i, 'sub', 'g') for i in range(nsub)] + [_task('x')]
+        ts[-2]['task_dep'] = ['x']
+        ts[-1]['task_dep'] = ['g']
+        for runner, k in (('serial', 0), ('thread', 2)):
+            add(ts, ['g'], runner, k, 'cycle:group:%d' % nsub)
+    # layered random DAGs
+    for j in range(3 if quick else 12):
+        n = rng.choice([120, 200, 300]) if quick else rng.choice([300, 800, 1500])
+        ts = [_task('n%d' % i) for i in range(n)]
+        for i in range(1, n):
+            for _ in range(rng.choice([0, 1, 1, 2, 3])):
+                d = rng.randrange(max(0, i - 40), i)
+                add_edge(ts, 'n%d' % i, 'n%d' % d, rng.choice(['task_dep', 'task_dep', 'setup', 'calc_dep', 'file']))
+        runner, k = rng.choice([('serial', 0), ('thread', 2), ('thread', 5), ('thread', 8)])
+        add(ts, None, runner, k, 'layered-dag')
+    return out
+
+
+LEAN_MAX_N = 30        # beyond this the Lean driver is not asked (its acceptor / monitor take minutes at 100 tasks)
+
+
+def scale_oracle(case, obs):
+    """outcome of a run whose tasks all succeed, from the graph alone: a cyclic closure -> exit 3 + the diagnostic;
+    otherwise exit 0 and every task of the closure executed exactly once.  Stands in for the correspondence check on
+    the cases that are too large for the Lean driver.  Returns None or a description of the mismatch."""
+    m = case['model']
+    if any(st != 'run' for st in m['status']) or any(o != 'ok' for o in m['outcome']) or any(m['ignored']):
+        return None
+    edges = closure_graph(case, obs['trace'])
+    cyc = cycle_tasks(edges)
+    if cyc:
+        if obs['exit'] != 3 or obs['err'] != 'cyclic':
+            return 'cyclic closure (%d tasks on cycles) but exit=%s err=%s' % (len(cyc), obs['exit'], obs['err'])
+        return None
+    if obs['exit'] != 0 or obs['err'] is not None:
+        return 'acyclic closure of %d tasks, all succeed, but exit=%s err=%s' % (len(edges), obs['exit'], obs['err'])
+    done = [e[1] for e in obs['trace'] if e[0] == 'success']
+    if sorted(done) != sorted(edges):
+        return 'acyclic closure of %d tasks but %d success reports (%d distinct)' % (len(edges), len(done), len(set(done)))
+    return None
 
 
 def structured_cases():
@@ -733,6 +1063,104 @@ def structured_cases():
                 ts[2]['calc_dep'] = ['c']
                 sel = ['a']
             out.append(named(base_case(ts, sel, runner, k), 'metachar-names'))
+    # create_after(executed=...) naming an unknown task, a task of the same creator, or creators waiting for each other
+    # (serial and thread runners only: the process runner pickles a task made by a delayed creator as a whole, and the
+    #  closures the harness uses as actions can not be pickled -- doit reports that as a runtime error, exit 2)
+    for runner, k in (('serial', 0), ('thread', 2), ('thread', 3)):
+        for shape in ('unknown', 'own-task', 'mutual', 'ring3', 'chain-ok', 'waits-for-dependent', 'unknown-and-cycle',
+                      'trigger-depends-on-created'):
+            ts = [_task(x) for x in ('b', 'x', 'y', 'z')]
+            if shape == 'unknown':
+                dl = [{'creator': 'c1', 'executed': 'nosuch', 'tasks': ['x']}]
+            elif shape == 'own-task':
+                dl = [{'creator': 'c1', 'executed': 'x', 'tasks': ['x', 'y']}]
+            elif shape == 'mutual':
+                dl = [{'creator': 'c1', 'executed': 'y', 'tasks': ['x']}, {'creator': 'c2', 'executed': 'x', 'tasks': ['y']}]
+            elif shape == 'ring3':
+                dl = [{'creator': 'c1', 'executed': 'y', 'tasks': ['x']}, {'creator': 'c2', 'executed': 'z', 'tasks': ['y']},
+                      {'creator': 'c3', 'executed': 'x', 'tasks': ['z']}]
+            elif shape == 'chain-ok':
+                ts[2]['task_dep'] = ['x']
+                dl = [{'creator': 'c1', 'executed': 'b', 'tasks': ['x']}, {'creator': 'c2', 'executed': 'x', 'tasks': ['y', 'z']}]
+            elif shape == 'waits-for-dependent':
+                ts[0]['task_dep'] = ['x']                     # b -> x, and x is created after b
+                dl = [{'creator': 'c1', 'executed': 'b', 'tasks': ['x']}]
+            elif shape == 'unknown-and-cycle':
+                dl = [{'creator': 'c1', 'executed': 'x', 'tasks': ['x']}, {'creator': 'c2', 'executed': 'nosuch', 'tasks': ['y']}]
+            else:
+                ts[0]['setup'] = ['y']                        # trigger b needs y (setup), y is created after x, x after b
+                dl = [{'creator': 'c1', 'executed': 'b', 'tasks': ['x']}, {'creator': 'c2', 'executed': 'x', 'tasks': ['y']}]
+            c = named(base_case(ts, None, runner, k), 'delayed-creators')
+            c['delayed'] = dl
+            out.append(c)
+    # wildcard task_dep: matching the task itself, closing a cycle through a pattern, matching nothing, plain use
+    for runner, k in (('serial', 0), ('thread', 2), ('process', 2)):
+        for shape in ('self', 'self-only-other-selected', 'cycle-through-pattern', 'acyclic', 'nothing', 'star',
+                      'group-subs', 'pattern-and-literal', 'long-ring'):
+            if runner == 'process' and shape not in ('self', 'cycle-through-pattern', 'acyclic'):
+                continue
+            sel = None
+            if shape == 'self':
+                ts = [_task(x) for x in ('a1', 'a2', 'b')]
+                ts[0]['task_dep'] = ['a*']                      # matches a1 itself (and a2)
+            elif shape == 'self-only-other-selected':
+                ts = [_task(x) for x in ('a1', 'b')]
+                ts[0]['task_dep'] = ['a*']
+                sel = ['b']                                     # the self-dependent task is outside the closure
+            elif shape == 'cycle-through-pattern':
+                ts = [_task(x) for x in ('top', 'b1', 'b2')]
+                ts[0]['task_dep'] = ['b*']
+                ts[2]['task_dep'] = ['top']
+            elif shape == 'acyclic':
+                ts = [_task(x) for x in ('top', 'b1', 'b2', 'c')]
+                ts[0]['task_dep'] = ['c', 'b*']
+                ts[1]['task_dep'] = ['c']
+            elif shape == 'nothing':
+                ts = [_task(x) for x in ('top', 'b1')]
+                ts[0]['task_dep'] = ['zz*']
+            elif shape == 'star':
+                ts = [_task(x) for x in ('x', 'y', 'all')]
+                ts[2]['task_dep'] = ['*']                       # everything, itself included
+                sel = ['all']
+            elif shape == 'group-subs':
+                ts = [runlib._new_task('g', 'group'), runlib._new_task('g:a', 'sub', 'g'),
+                      runlib._new_task('g:b', 'sub', 'g'), _task('use')]
+                ts[3]['task_dep'] = ['g:*']
+                ts[1]['task_dep'] = ['use']                     # g:a -> use -> g:* -> g:a
+                sel = ['use']
+            elif shape == 'pattern-and-literal':
+                ts = [_task(x) for x in ('top', 'b1', 'b2')]
+                ts[0]['task_dep'] = ['b1', 'b*']                # b1 twice
+            else:
+                ts = [_task('r%02d' % i) for i in range(12)]
+                for i in range(12):
+                    ts[i]['task_dep'] = ['r%02d*' % ((i + 1) % 12)]
+            out.append(named(base_case(ts, sel, runner, k), 'wildcard-dep'))
+    # calc_dep results carrying `uptodate`, unknown keys, or no dict at all (str / None)
+    for runner, k in (('serial', 0), ('thread', 2), ('process', 2)):
+        for shape in ('uptodate-false', 'uptodate-true-to-utd', 'junk', 'str', 'none', 'junk-and-deps', 'str-then-cycle'):
+            if runner == 'process' and shape not in ('uptodate-false', 'str'):
+                continue
+            ts = [_task(x) for x in ('c', 'd', 'a')]
+            ts[2]['calc_dep'] = ['c']
+            ts[0]['calc_res'] = {'task_dep': ['d'], 'file_dep': [], 'calc_dep': []}
+            if shape == 'uptodate-false':
+                ts[0]['calc_extra'] = {'uptodate': [False]}
+            elif shape == 'uptodate-true-to-utd':
+                ts[2]['status'] = 'utd'
+                ts[0]['calc_extra'] = {'uptodate': [True, None]}
+            elif shape == 'junk':
+                ts[0]['calc_extra'] = {'junk': 1, 'setup': ['d'], 'targets': ['x.out'], 'verbosity': 2}
+            elif shape == 'junk-and-deps':
+                ts[0]['calc_extra'] = {'junk': {'task_dep': ['a']}, 'uptodate': [False]}
+            elif shape == 'str':
+                ts[0]['ret_kind'] = 'str'
+            elif shape == 'none':
+                ts[0]['ret_kind'] = 'none'
+            else:
+                ts[0]['ret_kind'] = 'str'                       # delivers nothing ...
+                ts[1]['task_dep'] = ['a']                       # ... so d (d -> a) is not in the closure: no cycle
+            out.append(named(base_case(ts, ['a'], runner, k), 'calc-result-shapes'))
     # a cyclic error found while / after the workers are started (process mode: the started workers must not stay)
     for k in (2, 3):
         ts = [_task(x) for x in ('x', 'a', 'b')]
@@ -752,6 +1180,10 @@ def witness_of(case, obs, failed, py, lean, detail):
     w = runlib.make_witness(case, obs, failed, py, lean, detail)
     w['leak'] = obs.get('leak')
     w['family'] = case.get('family')
+    if case.get('delayed'):
+        w['delayed'] = case['delayed']
+        w['rendered'] = list(w['rendered']) + ['@create_after(executed=%r, creates=%s) def task_%s(): yields %s'
+                                               % (d['executed'], d['tasks'], d['creator'], d['tasks']) for d in case['delayed']]
     exo = [(t['name'], t['exc_args']) for t in case['tasks'] if t.get('exc_args')]
     if exo:
         w['exception_args'] = exo
@@ -768,15 +1200,24 @@ def witness_of(case, obs, failed, py, lean, detail):
 
 
 def monitors_of(case, obs):
-    return py_monitor_raise(case, obs) if has_raise(case) else py_monitor(case, obs)
+    if has_raise(case):
+        return py_monitor_raise(case, obs)
+    if has_delayed(case):
+        return py_monitor_delayed(case, obs)
+    return py_monitor(case, obs)
 
 
 def judge(case, obs, a_run, a_c09, st, shrink_left):
     st.traces += 1
     py, detail = monitors_of(case, obs)
     lean = None
+    big_case = case['model']['n'] > LEAN_MAX_N
     if has_raise(case):
         st.count('family:selection-raises(model-not-asked)')
+    elif has_delayed(case):
+        st.count('delayed-creators:python-monitor-only(model-not-asked)')
+    elif big_case:
+        st.count('scale:python-monitor-only(model-not-asked)')
     elif a_c09 is None or 'error' in a_c09:
         st.count('driver_unavailable')
     else:
@@ -800,14 +1241,18 @@ def judge(case, obs, a_run, a_c09, st, shrink_left):
             t0 = time.time()
             base = dict(case)
             base.pop('schedule', None)
-            small = runlib.shrink(base, still, max_tests=60, max_seconds=min(12.0, shrink_left))
+            runlib.expand = c09_expand       # candidates of the shrinker get this module's expansion
+            try:
+                small = runlib.shrink(base, still, max_tests=60, max_seconds=min(12.0, shrink_left))
+            finally:
+                runlib.expand = _orig_expand
             used = time.time() - t0
         o2 = run_case(small)
         p2, d2 = monitors_of(small, o2)
         bad2 = [k for k in KEYS if not p2.get(k, True)]
         if bad2:
             l2 = None
-            if not has_raise(small):
+            if not has_raise(small) and not has_delayed(small) and small.get('model', {}).get('n', 0) <= LEAN_MAX_N:
                 try:
                     a2 = common.drv_batch([c09_request(small, o2)])[0]
                     l2 = a2.get('monitor')
@@ -830,6 +1275,30 @@ def judge(case, obs, a_run, a_c09, st, shrink_left):
                           'python and Lean C09 monitors disagree on %s' % disagree)
             return used
     if has_raise(case):
+        return used
+    if has_delayed(case):
+        bad = delayed_oracle(case, obs)
+        if bad is None:
+            st.count('delayed-creators:outcome-oracle-agrees')
+        else:
+            st.divergence(witness_of(case, obs, [], py, None, detail),
+                          'delayed creators (outcome oracle instead of the Lean acceptor): %s' % bad)
+        return used
+    if big_case:
+        bad = scale_oracle(case, obs)
+        if bad is None:
+            st.count('scale:outcome-oracle-agrees')
+        else:
+            w = witness_of(case, obs, [], py, None, detail)
+            st.divergence(w, 'scale tier (outcome oracle instead of the Lean acceptor): %s' % bad)
+        return used
+    if a_run is not None and 'error' in a_run and any(e[0] in ('runtime_error', 'cleanup_error') for e in obs['trace']):
+        # the reporter was told of a runtime error (an InvalidTask raised while the run was under way): the model has no
+        # such transition for the inputs generated here, and the acceptor cannot even read the event
+        st.count('model:rejected')
+        st.divergence(witness_of(case, obs, [], py, lean, detail),
+                      'correspondence M1: the run was cut short by a runtime error (reporter.runtime_error; exit=%s, stderr %r): '
+                      'the model has no such step' % (obs['exit'], (obs.get('stderr') or '')[-160:]))
         return used
     if a_run is None or 'error' in a_run:
         st.count('driver_unavailable(run)')
@@ -886,6 +1355,20 @@ def count_c09(st, case, obs):
             st.count('flag:continue')
     st.count('exit:%s' % obs['exit'])
     st.count('err:%s' % obs['err'])
+    for d in case.get('delayed') or []:
+        names = set(t['name'] for t in case['tasks'])
+        st.count('delayed:executed=%s' % ('none' if d['executed'] is None else 'unknown' if d['executed'] not in names
+                                          else 'own-task' if d['executed'] in d['tasks'] else 'task'))
+    if case.get('scale'):
+        st.count('scale:%s' % case['scale'].split(':')[0] + (':' + case['scale'].split(':')[1] if case['scale'].startswith('cycle:') else ''))
+        st.count('scale:n>=%d' % (1000 if m['n'] >= 1000 else 200 if m['n'] >= 200 else 50 if m['n'] >= 50 else 0))
+    if has_wild(case):
+        st.count('wildcard_task_dep')
+    for t in case['tasks']:
+        if t.get('calc_extra'):
+            st.count('calc_result_extra_keys:%s' % '+'.join(sorted(t['calc_extra'])))
+        if t.get('ret_kind'):
+            st.count('calc_result_not_a_dict:%s' % t['ret_kind'])
     if any(t.get('big') for t in case['tasks']):
         st.count('has_big_output_task')
     for t in case['tasks']:
@@ -931,8 +1414,7 @@ def eval_batch(batch):
             st.count('not_run_after_2_hangs_in_batch')
             continue
         try:
-            c['model'] = runlib.expand(dict(c, tasks=[dict(t, status='run') if t['status'] == 'raise' else t
-                                                      for t in c['tasks']]))
+            c['model'] = c09_expand(c)
         except Exception:  # noqa
             st.count('generator_rejected')
             continue
@@ -940,7 +1422,7 @@ def eval_batch(batch):
         if o['err'] == 'deadlock' or o.get('leak'):
             hangs += 1
         pairs.append((c, o))
-    plain = [(c, o) for c, o in pairs if not has_raise(c)]
+    plain = [(c, o) for c, o in pairs if not has_raise(c) and not has_delayed(c) and c['model']['n'] <= LEAN_MAX_N]
     a_run = runlib.ask_model(plain)
     try:
         a_c09 = common.drv_batch([c09_request(c, o) for c, o in plain]) if plain else []
@@ -989,7 +1471,7 @@ def run(ctx, scale=1.0):
     deadline = time.time() + max(12.0, 0.8 * ctx.time_left())
     corpus = corpus_cases()
     ctx.count('corpus', len(corpus))
-    fixed = corpus + structured_cases()
+    fixed = corpus + structured_cases() + scale_cases(ctx.tier, random.Random(ctx.seed * 7919 + 13))
     inproc = [c for c in fixed if c['runner'] != 'process']
     procs = [c for c in fixed if c['runner'] == 'process']
     specs = exhaustive_specs(ctx.tier, ctx.boost)
@@ -1058,8 +1540,7 @@ def replay(ctx, data):
             print(' -', r.get('kind'), ':', str(r.get('note'))[:400])
         return False
     case = dict(case)
-    case['model'] = runlib.expand(dict(case, tasks=[dict(t, status='run') if t['status'] == 'raise' else t
-                                                    for t in case['tasks']]))
+    case['model'] = c09_expand(case)
     print(runlib.render(case))
     for t in case['tasks']:
         if t.get('exc_args'):
